@@ -288,7 +288,7 @@ End PA.
    "interpolation" = 100 + the frequency, calibration frequencies 10 20 30, admissible range [12, 28]):
    set on an own grid with tracking; a call with a sigma_nf of 0 (rejected); set on the calibration grid
    without tracking; then one point; NULL / NULL; one point again on a fresh vector *)
-Definition n_env : menv nat := {| en_calf := [10; 20; 30]; en_fvalid := true; en_lo := 12; en_hi := 28; en_full_s_ok := true |}.
+Definition n_env : menv nat := {| en_calf := [10; 20; 30]; en_fvalid := true; en_lo := 12; en_hi := 28; en_full_s_ok := true; en_gaps_ok := fun _ => true |}.
 Definition n_run_args := run_args nat 0 Nat.leb Nat.ltb (fun _ _ f => 100 + f).
 Definition n_returns := returns nat 0 Nat.leb Nat.ltb (fun _ _ f => 100 + f).
 Example run_args_instance :
